@@ -3,13 +3,13 @@
 package subrig
 
 import (
-	"time"
 	"encoding/json"
 	"os"
 	"sort"
+	"time"
 
-	"pgregory.net/rapid"
 	"fmt"
+	"pgregory.net/rapid"
 	"strings"
 	"testing"
 )
